@@ -366,6 +366,8 @@ class Evaluator:
             return to_obj(invals[0]).transpose(tuple(p["permutation"]))
         if name == "rev":
             return np.flip(to_obj(invals[0]), axis=tuple(p["dimensions"]))
+        if name == "stack":
+            return np.stack([to_obj(a) for a in invals], axis=p.get("axis", 0))
         if name == "concatenate":
             return np.concatenate([to_obj(a) for a in invals], axis=p["dimension"])
         if name == "slice":
@@ -574,3 +576,73 @@ def _eval_opaque(name, x):
     for j in range(len(xs)):
         out[j] = sp.Function(f"{base}{j}", real=True)(*xs)
     return out.reshape(np.shape(x))
+
+
+# ---------------------------------------------------------------------------------------------- exact solve and symbolic noise
+def exact_cg(mat, j, x0=None, **_kw):
+    """stands for nifty.re's conjugate gradient under assumption A-CGEXACT: returns the exact solution of mat(x) == j.
+    Traceable: the dense matrix is obtained by applying `mat` to the unit vectors and is solved by Gaussian elimination without
+    pivoting written in plain arithmetic (valid for generic symbolic entries)."""
+    import jax.numpy as jnp
+    from jax.flatten_util import ravel_pytree
+    fj, unravel = ravel_pytree(j)
+    n = fj.shape[0]
+    cols = [ravel_pytree(mat(unravel(jnp.zeros(n, dtype=fj.dtype).at[i].set(1.))))[0] for i in range(n)]
+    A = [[cols[c][r] for c in range(n)] for r in range(n)]
+    b = [fj[r] for r in range(n)]
+    for k in range(n):
+        for r in range(k + 1, n):
+            f = A[r][k] / A[k][k]
+            for c in range(k, n):
+                A[r][c] = A[r][c] - f * A[k][c]
+            b[r] = b[r] - f * b[k]
+    x = [None] * n
+    for r in range(n - 1, -1, -1):
+        s = b[r]
+        for c in range(r + 1, n):
+            s = s - A[r][c] * x[c]
+        x[r] = s / A[r][r]
+    return unravel(jnp.stack(x)), 0
+
+
+class NoiseFeed:
+    """replaces nifty.re's random_like inside a traced function: white noise is taken, in call order, from a flat traced array
+    (which Engine J then binds to symbols xi_k), so that a sample becomes a linear form in the xi"""
+
+    def __init__(self, flat):
+        self.flat, self.pos = flat, 0
+
+    def __call__(self, key, primals, rng=None):
+        import jax
+        import jax.numpy as jnp
+
+        def take(leaf):
+            shp = tuple(leaf.shape)
+            n = int(np.prod(shp, dtype=int))
+            out = self.flat[self.pos:self.pos + n].reshape(shp)
+            self.pos += n
+            return out
+        return jax.tree_util.tree_map(take, primals, is_leaf=lambda x: hasattr(x, "shape") and hasattr(x, "dtype") and not isinstance(x, (dict, list, tuple)))
+
+
+def linear_form(es, xis):
+    """(constants, C) with es[i] == const[i] + sum_k C[i,k] xi_k, read off by substitution (xi = 0, xi = e_k); raises ValueError if an
+    entry is not linear in the xi (decided at exact rational points, then by simplification)"""
+    from .objx import zero_status
+    rows, consts = [], []
+    zero = {x: 0 for x in xis}
+    for e in es:
+        e = sp.sympify(e)
+        c0 = e.subs(zero)
+        row = []
+        for k, x in enumerate(xis):
+            one = dict(zero)
+            one[x] = 1
+            row.append(e.subs(one) - c0)
+        recon = c0 + sum(r * x for r, x in zip(row, xis))
+        st = zero_status(e - recon, n=4, simplify_seconds=3)
+        if st[0] == "refuted":
+            raise ValueError(f"not linear in the noise: {st[2][:200]}")
+        rows.append(row)
+        consts.append(c0)
+    return consts, sp.Matrix(rows)
